@@ -986,7 +986,7 @@ Section LsfScript.
 
   Lemma jn_safe : safe_word jn.
   Proof.
-    pose proof (hp_name c HP) as NM. fold st in NM. unfold safe_name in NM.
+    pose proof (hp_name c HP) as NM. fold st in NM. unfold safe_name in NM. rewrite BE in NM. cbn [job_name] in NM.
     assert (NN : st_name st <> []). { intro Z. rewrite Z in NM. discriminate NM. }
     assert (F : forallb (fun x => safe_char x && negb (x =? 47)) (under (st_name st)) = true).
     { destruct (st_name st). congruence. exact NM. }
@@ -1147,7 +1147,7 @@ Section LsfScript2.
     lsf_script_ok c ps (join [nl] lines ++ nl :: nl :: finl c ps ++ [nl]) = true.
   Proof.
     intros ps W S HBp. destruct (finl_start ps W S) as [c0 [t [E CS]]]. rewrite E.
-    destruct (lsf_pairs_read c HP LP BP vh vb vq) with (w := w) as [RLl CLl]; auto.
+    destruct (lsf_pairs_read c HP LP BP BE vh vb vq) with (w := w) as [RLl CLl]; auto.
     fold st b in RLl, CLl. fold lines in RLl, CLl. unfold CLb, CLg in CLl.
     assert (NE : lines <> []) by (unfold lines, lsf_lines; discriminate).
     assert (SB : script_body (join [nl] lines ++ nl :: nl :: c0 :: t) = c0 :: t)
